@@ -35,15 +35,16 @@ import (
 )
 
 type c06Rec struct {
-	Id     string                    `json:"id"`
-	Seq    string                    `json:"seq"`
-	Count  int                       `json:"count"`
-	Attrs  map[string]interface{}    `json:"attrs"`
-	Merged map[string]map[string]int `json:"merged"`
-	MK     string                    `json:"mk"` // stats | int | iface : Go type of the merged maps
-	Qual   string                    `json:"qual,omitempty"` // phred values as bytes (same length as seq); "" = no qualities
-	CCount *int                      `json:"ccount,omitempty"` // explicit count attribute, any integer (0, negative): overrides Count
-	NF     bool                      `json:"nf,omitempty"`     // numbers are stored as float64 (as the JSON header reader leaves them) instead of int (as the OBI header reader does)
+	Id        string                    `json:"id"`
+	Seq       string                    `json:"seq"`
+	Count     int                       `json:"count"`
+	Attrs     map[string]interface{}    `json:"attrs"`
+	Merged    map[string]map[string]int `json:"merged"`
+	MK        string                    `json:"mk"`                  // stats | int | iface : Go type of the merged maps
+	Qual      string                    `json:"qual,omitempty"`      // phred values as bytes (same length as seq); "" = no qualities
+	CCount    *int                      `json:"ccount,omitempty"`    // explicit count attribute, any integer (0, negative): overrides Count
+	NF        bool                      `json:"nf,omitempty"`        // numbers are stored as float64 (as the JSON header reader leaves them) instead of int (as the OBI header reader does)
+	BadMerged map[string]interface{}    `json:"badmerged,omitempty"` // merged_<k> attributes that are NOT a map of integers (any JSON value)
 }
 
 type c06Case struct {
@@ -64,6 +65,18 @@ type c06Case struct {
 	Spin        int      `json:"spin"`   // number of busy goroutines competing for the processors during the case
 	WDelay      int      `json:"wdelay"` // on disk: every chunk file is completed (flushed, closed) this many ms late
 	Echo        bool     `json:"echo"`   // report the typed view of the inputs and of the re-read chunk files
+	// ---- round 3 (c06r3.go)
+	OptHist  int       `json:"opthist"`  // uniq: 1 = the options are given as a history of calls (contradicted first, one call per key)
+	CKind    string    `json:"ckind"`    // classifier / subchunk: annotation | sequence | hash
+	CKey     string    `json:"ckey"`     // annotation classifier: the attribute
+	CKey2    string    `json:"ckey2"`    // dual annotation classifier: the second attribute ("" = none)
+	CSize    int       `json:"csize"`    // hash classifier: number of classes
+	Hist     []c06Step `json:"hist"`     // classifier: calls on one classifier object, in order
+	Batches  [][]int   `json:"batches"`  // subchunk / mergepipe: the input batches (indices into recs)
+	NWorkers int       `json:"nworkers"` // subchunk: the nworkers argument (0 = default)
+	Size     int       `json:"size"`     // mergepipe: explicit output batch size (0 = none given)
+	Inplace  bool      `json:"inplace"`  // merge2: recs[0].Merge(recs[1], na, inplace, stats)
+	Opts     []c06Opt  `json:"opts"`     // options: setters in call order
 }
 
 // c06TVal is the typed view of an attribute value, as the Go code under test sees it.
@@ -96,13 +109,20 @@ type c06Out struct {
 }
 
 type c06Obs struct {
-	Kind  string   `json:"kind"` // ok | panic | timeout | error
-	Err   string   `json:"err,omitempty"`
+	Kind   string    `json:"kind"` // ok | panic | timeout | error
+	Err    string    `json:"err,omitempty"`
 	Recs   []c06Out  `json:"recs"`
 	NRecs  int       `json:"nrecs"`
 	TIn    []c06TRec `json:"tin,omitempty"`
 	Reread []c06TRec `json:"reread,omitempty"`
 	NFiles int       `json:"nfiles,omitempty"`
+	// ---- round 3
+	Steps    []c06StepObs           `json:"steps,omitempty"`
+	OBatches [][]string             `json:"obatches,omitempty"` // subchunk / mergepipe: ids of every output batch
+	After    []c06TRec              `json:"after,omitempty"`    // merge2: the two operands afterwards
+	Same     bool                   `json:"same,omitempty"`     // merge2: the result is the receiver itself
+	Keys     []string               `json:"keys,omitempty"`     // distribute: Value(code) of every output, in the order of obatches
+	Get      map[string]interface{} `json:"get,omitempty"`      // options: what the accessors return
 }
 
 func c06Typed(v interface{}) c06TVal {
@@ -220,6 +240,9 @@ func c06Build(r c06Rec) *obiseq.BioSequence {
 			}
 			s.SetAttribute("merged_"+k, mm)
 		}
+	}
+	for k, v := range r.BadMerged {
+		s.SetAttribute("merged_"+k, v)
 	}
 	if r.Count > 0 {
 		s.SetAttribute("count", r.Count)
@@ -384,6 +407,9 @@ func c06run(c c06Case) (o c06Obs) {
 	for _, r := range c.Recs {
 		data = append(data, c06Build(r))
 	}
+	if c.Op != "" && c.Op != "uniq" && c.Op != "demerge" {
+		return c06r3(c, data)
+	}
 	if c.Op == "demerge" {
 		w := obidemerge.MakeDemergeWorker(c.DKey)
 		out := []c06Out{}
@@ -432,6 +458,9 @@ func c06run(c c06Case) (o c06Obs) {
 	}
 	if c.NoSingleton {
 		opts = append(opts, obichunk.OptionsNoSingleton())
+	}
+	if c.OptHist == 1 {
+		opts = c06OptHistory(c)
 	}
 	type res struct {
 		recs []c06Out
